@@ -133,7 +133,7 @@ def stale_stream_id(t, k):
     if q["timer"] != "to" or not q["lc"]:
         return False
     conn = pre["conns"][q["lc"] - 1]
-    return any(x[0] == q["lid"] and (x[1] != ev["r"] or x[2] != "X") for x in conn["reg"])
+    return any(x[0] == q["lid"] and x[1] != ev["r"] for x in conn["reg"])
 
 
 def reprepare_other_connection(t, k):
@@ -184,8 +184,15 @@ def run_system(ctx, pid=None):
     def reach(w):
         wcfg = tlc.write_cfg(os.path.join(ctx.scratch, w + ".cfg"), invariants=[w], deadlock=False,
                              constants=MODEL_CONSTS if w in NEEDS_THREE_HOSTS else WITNESS_CONSTS)
-        return w, tlc.run_tlc("Driver", wcfg, ctx.scratch, workers=4, simulate="num=400000", depth=70, seed=ctx.seed + 2,
-                              timeout=240, heap="1g")
+        wd = os.path.join(ctx.scratch, "w_" + w)
+        os.makedirs(wd, exist_ok=True)
+        r = None
+        for attempt in range(2):                      # a JVM that dies (memory pressure on a busy machine) is started again
+            r = tlc.run_tlc("Driver", wcfg, wd, workers=4, simulate="num=400000", depth=70, seed=ctx.seed + 2 + attempt,
+                            timeout=240, heap="2g")
+            if r.invariant == w:
+                break
+        return w, r
     pool = ThreadPoolExecutor(max_workers=4)
     witness_runs = [pool.submit(reach, w) for w in WITNESSES]        # TLC processes; meanwhile the runs are recorded
 
@@ -206,7 +213,8 @@ def run_system(ctx, pid=None):
     for f in witness_runs:
         w, wres = f.result()
         if wres.invariant != w:
-            raise tlc.MachineryError("vacuity witness %s of Driver.tla not reached by simulation (%s)" % (w, wres.error))
+            raise tlc.MachineryError("vacuity witness %s of Driver.tla not reached by simulation (%s)\n%s"
+                                     % (w, wres.error, wres.out[-1500:]))
     ctx.note("system_witnesses_reached", len(WITNESSES))
     progress = []
     batch = 500
@@ -273,7 +281,8 @@ def run_system(ctx, pid=None):
             ctx.violation("whole-driver run %d rejected by Driver.tla at event %d: %s%s; the real objects afterwards: reqs=%s conns=%s"
                           % (i, k + 1, shown, (" (differs in: %s)" % ",".join(parts)) if parts else "",
                              ev.get("post", {}).get("reqs"), ev.get("post", {}).get("conns")),
-                          replay={"system_trace": [{x: y for x, y in e.items() if x != "post"} for e in t[:k + 1]],
+                          replay={"system": True, "seed": ctx.seed, "run": i, "nreqs": nreqs,
+                                  "system_trace": [{x: y for x, y in e.items() if x != "post"} for e in t[:k + 1]],
                                   "post_before": t[k - 1].get("post") if k else None, "post_after": ev.get("post")},
                           signature=sig)
     ctx.traces_validated += accepted
@@ -311,3 +320,37 @@ def run_system(ctx, pid=None):
         "system runs: executor tasks, scheduler entries, timers and node answers are run one at a time by a seeded random "
         "scheduler (loop-thread callbacks and executor tasks atomic); pool connections have stream ids 0..%d" % dr.MAXID,
     ]
+
+
+def system_tier(ctx, pid):
+    """The thorough tier of the checks whose property the system model speaks about runs the whole-driver machinery too
+    and reports what is attributed to that property."""
+    if not ctx.quick:
+        run_system(ctx, pid)
+
+
+def is_system_replay(obj):
+    return isinstance(obj, dict) and bool(obj.get("system"))
+
+
+def replay_system(ctx, obj):
+    """Record the named whole-driver run again (the scheduler is seeded) and validate it against Trace_Driver.tla."""
+    import random
+    from harness.replay import driver as dr
+    nreqs = obj.get("nreqs", 4)
+    ev, _ = dr.record(random.Random(obj["seed"] * 1000003 + obj["run"]), nreqs=nreqs)
+    tconsts = {"Hosts": set(dr.HOSTS), "MaxEvents": dr.MAX_EVENTS, "NReqs": nreqs, "MaxId": dr.MAXID,
+               "Keyspaces": set(dr.KEYSPACES), "Rots": {0, 1, 2}, "SpecMax": dr.SPECMAX, "Check": set(PARTS)}
+    tcfg = tlc.write_cfg(os.path.join(ctx.scratch, "driver_trace.cfg"), init="TraceInit", next="TraceNext",
+                         constants=tconsts, invariants=INV, constraints=["Progress"], postcondition="Done", deadlock=False)
+    tres, prog = tlc.validate_traces("Trace_Driver", tcfg, [ev], ctx.scratch, timeout=600)
+    for j, e in enumerate(ev):
+        print("%3d %s" % (j + 1, {x: y for x, y in e.items() if x != "post"}))
+    if tres.violation:
+        ctx.violation("replayed whole-driver run: invariant %s violated" % tres.invariant, replay=obj)
+    elif prog[0] != len(ev) + 1 or ev[-1]["e"] == "Anomaly":
+        k = min(prog[0], len(ev)) - 1
+        print("rejected at event %d; real objects afterwards: %s" % (k + 1, ev[k].get("post")))
+        ctx.violation("replayed whole-driver run: still rejected by Driver.tla at event %d" % (k + 1), replay=obj)
+    else:
+        print("accepted by Driver.tla (%d events)" % len(ev))
